@@ -1,7 +1,7 @@
 /-
-C18, text level, part A: `preprocess` (the regexp + ten `strings.ReplaceAll` passes of
-preprocessTypeValues) distributes over the pieces `Marshal` concatenates, and leaves
-inert pieces alone.  Core Lean only.
+C18, text level, part A: `preprocessTokens` (the regexp + ten `strings.ReplaceAll` passes
+of preprocessTypeTokens, applied to the text between two string literals) distributes
+over the pieces `Marshal` concatenates, and leaves inert pieces alone.  Core Lean only.
 
 Key notion: `endSafeB p a` – no non-empty suffix of `a` is a proper prefix of the
 pattern `p`, i.e. no occurrence of `p` can start inside `a` and end beyond it.  It is a
@@ -9,6 +9,11 @@ property of `a` alone, so scanning `a ++ b` is scanning `a`, then scanning `b`.
 -/
 import YorkieModel.Lemmas.Yson
 namespace Yorkie.Yson
+
+/-- does `pat` occur in the text? -/
+def containsSub (pat : Str) : Str → Bool
+  | [] => pat.isEmpty
+  | c :: r => isPrefixOf pat (c :: r) || containsSub pat r
 
 /-! ### prefixes -/
 
@@ -140,14 +145,14 @@ theorem inert_stageSafe : ∀ (reps : List (Str × Str)) (s : Str), inertFor rep
 /-- the literal head of `dedupCounterRe` -/
 def d17 : Str := cp%"DedupCounter(Int("
 
-theorem dedupMatch_none {s : Str} (h : isPrefixOf d17 s = false) : dedupMatch s = none := by
+theorem dedupHeadMatch_none {s : Str} (h : isPrefixOf d17 s = false) : dedupHeadMatch s = none := by
   have : stripPrefix d17 s = none := by
     simpa [isPrefixOf] using h
-  simp only [dedupMatch]
+  simp only [dedupHeadMatch]
   rw [show (cp%"DedupCounter(Int(" : Str) = d17 from rfl, this]
 
-theorem dedupReplace_inert : ∀ (a b : Str), endSafeB d17 a = true → containsSub d17 a = false →
-    dedupReplace 0 (a ++ b) = a ++ dedupReplace 0 b
+theorem dedupHead_inert : ∀ (a b : Str), endSafeB d17 a = true → containsSub d17 a = false →
+    dedupHead (a ++ b) = a ++ dedupHead b
   | [], _, _, _ => rfl
   | c :: a, b, hs, hn => by
     have hs' : endSafeB d17 a = true := by
@@ -158,16 +163,12 @@ theorem dedupReplace_inert : ∀ (a b : Str), endSafeB d17 a = true → contains
       intro h
       have := prefix_of_endSafe (List.cons_ne_nil c a) hs (by simpa using h)
       exact absurd (isPrefixOf_iff.mpr this) (by simp [hn.1])
-    simp only [List.cons_append, dedupReplace, dedupMatch_none hnp]
-    exact congrArg _ (dedupReplace_inert a b hs' hn.2)
+    simp only [List.cons_append, dedupHead, dedupHeadMatch_none hnp]
+    exact congrArg _ (dedupHead_inert a b hs' hn.2)
 
-theorem dedupReplace_skip : ∀ (x b : Str), dedupReplace x.length (x ++ b) = dedupReplace 0 b
-  | [], _ => rfl
-  | _ :: x, b => by simpa [dedupReplace] using dedupReplace_skip x b
+/-! ### pieces after which `preprocessTokens` starts afresh -/
 
-/-! ### pieces after which `preprocess` starts afresh -/
-
-def Dist (s : Str) : Prop := ∀ b, preprocess (s ++ b) = preprocess s ++ preprocess b
+def Dist (s : Str) : Prop := ∀ b, preprocessTokens (s ++ b) = preprocessTokens s ++ preprocessTokens b
 
 theorem Dist.nil : Dist [] := fun _ => rfl
 
@@ -175,33 +176,30 @@ theorem Dist.append {a b : Str} (ha : Dist a) (hb : Dist b) : Dist (a ++ b) := b
   intro c
   rw [List.append_assoc, ha, hb, ha b, List.append_assoc]
 
-theorem preprocess_append {a b : Str} (ha : Dist a) : preprocess (a ++ b) = preprocess a ++ preprocess b :=
-  ha b
-
 /-- a piece the regexp cannot touch and whose ReplaceAll passes are end-safe -/
 def pieceOK (s : Str) : Bool :=
   endSafeB d17 s && !containsSub d17 s && stageSafe replacements s
 
 theorem dist_of_pieceOK {s : Str} (h : pieceOK s = true) :
-    Dist s ∧ preprocess s = applyReplacements replacements s := by
+    Dist s ∧ preprocessTokens s = applyReplacements replacements s := by
   simp only [pieceOK, Bool.and_eq_true, Bool.not_eq_true'] at h
   obtain ⟨⟨h1, h2⟩, h3⟩ := h
-  have hd : ∀ b, dedupReplace 0 (s ++ b) = s ++ dedupReplace 0 b := fun b => dedupReplace_inert s b h1 h2
-  have hs : preprocess s = applyReplacements replacements s := by
+  have hd : ∀ b, dedupHead (s ++ b) = s ++ dedupHead b := fun b => dedupHead_inert s b h1 h2
+  have hs : preprocessTokens s = applyReplacements replacements s := by
     have := hd []
-    simp only [List.append_nil, dedupReplace] at this
-    simp only [preprocess, this]
+    simp only [List.append_nil, dedupHead] at this
+    simp only [preprocessTokens, this]
   refine ⟨?_, hs⟩
   intro b
   rw [hs]
-  simp only [preprocess, hd b]
+  simp only [preprocessTokens, hd b]
   exact applyReplacements_append replacements s _ h3
 
 /-- an inert piece: untouched by every pass -/
 def inertAll (s : Str) : Bool :=
   endSafeB d17 s && !containsSub d17 s && inertFor replacements s
 
-theorem dist_of_inert {s : Str} (h : inertAll s = true) : Dist s ∧ preprocess s = s := by
+theorem dist_of_inert {s : Str} (h : inertAll s = true) : Dist s ∧ preprocessTokens s = s := by
   simp only [inertAll, Bool.and_eq_true] at h
   have hi := inert_stageSafe replacements s h.2
   have := dist_of_pieceOK (s := s) (by simp [pieceOK, h.1.1, h.1.2, hi.1])
